@@ -42,7 +42,7 @@ EXTRA_MODULES = {
             "Proofs.E2EEquiv"],
     "C01": ["Proofs.C01", "Proofs.NoPanic", "Proofs.StdNoPanic", "Proofs.ArrNoPanic", "Proofs.JsonFilter", "Proofs.DateFilter"],
     "C17": ["Proofs.DateFilter"],
-    "C02": ["Proofs.C02", "Proofs.JsonFilter"],
+    "C02": ["Proofs.C02", "Proofs.JsonFilter", "Proofs.MapOrder"],
     "C03": ["Proofs.C03"],
     "C20": ["Proofs.C20", "Proofs.C20Source", "Proofs.ProgLemmas", "Proofs.RenderStops", "Proofs.C20Located", "Proofs.RenderTrace", "Proofs.TraceLemmas",
             "Proofs.TraceSites"],
